@@ -664,6 +664,47 @@ func (p *pkgInfo) mentionsIn(n ast.Node, skipBodies bool, aliases map[types.Obje
 		}
 		return true
 	})
+	// A local alias (a pointer holding the address of a package-level
+	// variable) accesses the variable only where it is dereferenced or handed
+	// to a call; comparing it with nil or copying the pointer is not an access.
+	deref := map[*ast.Ident]bool{}
+	markDeref := func(e ast.Expr) {
+		for {
+			switch v := e.(type) {
+			case *ast.ParenExpr:
+				e = v.X
+				continue
+			case *ast.UnaryExpr:
+				if v.Op == token.AND {
+					e = v.X
+					continue
+				}
+			}
+			break
+		}
+		if id, ok := e.(*ast.Ident); ok {
+			deref[id] = true
+		}
+	}
+	ast.Inspect(n, func(x ast.Node) bool {
+		switch v := x.(type) {
+		case *ast.SelectorExpr:
+			markDeref(v.X)
+		case *ast.IndexExpr:
+			markDeref(v.X)
+		case *ast.SliceExpr:
+			markDeref(v.X)
+		case *ast.StarExpr:
+			markDeref(v.X)
+		case *ast.RangeStmt:
+			markDeref(v.X)
+		case *ast.CallExpr:
+			for _, a := range v.Args {
+				markDeref(a)
+			}
+		}
+		return true
+	})
 	resolve := func(id *ast.Ident) *types.Var {
 		obj := p.info.Uses[id]
 		if obj == nil {
@@ -781,6 +822,9 @@ func (p *pkgInfo) mentionsIn(n ast.Node, skipBodies bool, aliases map[types.Obje
 			g := resolve(v)
 			if g == nil || skip[v] {
 				return true
+			}
+			if obj := p.info.Uses[v]; obj != nil && aliases[obj] != nil && !deref[v] && !writes[v] {
+				return true // the pointer itself, not what it points to
 			}
 			for _, fv := range allFieldVars(g) {
 				out = append(out, mention{fv, writes[v]})
@@ -989,6 +1033,21 @@ func instrumentSched(p *pkgInfo, out string, overlay map[string]string, report m
 			for _, st := range list {
 				// mentions in the statement header (not in nested blocks)
 				calls := accessCalls(st, true)
+				switch cl := st.(type) {
+				case *ast.CaseClause, *ast.CommClause:
+					// nothing may be inserted between the clauses of a switch:
+					// clause bodies are rewritten by the recursion below, clause
+					// headers are accounted for before the switch statement
+					calls = nil
+				case *ast.SwitchStmt:
+					for _, c := range cl.Body.List {
+						if cc, ok := c.(*ast.CaseClause); ok {
+							for _, x := range cc.List {
+								calls = append(calls, accessCalls(x, true)...)
+							}
+						}
+					}
+				}
 				rewriteStmt(st)
 				// loops: the header is re-evaluated on every iteration
 				if fs, ok := st.(*ast.ForStmt); ok && len(calls) > 0 {
